@@ -40,10 +40,14 @@ func AsyncMapReduce[T, P, A any](
 
 	doneChan := make(chan struct{})
 	defer close(doneChan)
+	VerifPoint("amr.c.start", doneChan, len(payload))
 
 	for _, value := range payload {
 		go func(v T) {
+			VerifPoint("amr.w.start", doneChan, v)
 			mapRes, err := mapFunc(v)
+			VerifPoint("amr.w.mapped", doneChan, v, err != nil)
+			defer VerifPoint("amr.w.exit", doneChan, v)
 			if err != nil {
 				errChan <- err
 				return
@@ -54,22 +58,31 @@ func AsyncMapReduce[T, P, A any](
 
 	go func() {
 		for {
+			VerifPoint("amr.r.select", doneChan)
 			select {
 			case res := <-resChan:
+				VerifPoint("amr.r.recvres", doneChan, res)
 				acc = reduceFunc(acc, res)
+				VerifPoint("amr.r.reduced", doneChan)
 				wg.Done()
 			case err := <-errChan:
+				VerifPoint("amr.r.recverr", doneChan, err)
 				errs = gqlerrors.ExtendErrorList(errs, err)
+				VerifPoint("amr.r.erred", doneChan)
 				wg.Done()
 			case <-doneChan:
+				VerifPoint("amr.r.exit", doneChan)
 				return
 			}
 		}
 	}()
 
+	VerifPoint("amr.c.prewait", doneChan)
 	wg.Wait()
+	VerifPoint("amr.c.waited", doneChan)
 
 	doneChan <- struct{}{}
+	VerifPoint("amr.c.sentdone", doneChan)
 
 	if len(errs) > 0 {
 		return acc, errs
